@@ -77,6 +77,8 @@ def render_lookup(k: int, cfg: T.Dict[str, T.Any], a: T.Dict[str, T.Any], rd: Re
         args.append('required: true')
     if a['af'] != 'unset':
         args.append('allow_fallback: ' + a['af'])
+    if a.get('static', 'unset') != 'unset':
+        args.append('static: ' + a['static'])
     if meth == 'pkgconfig':
         args.append("method: 'pkg-config'")
     return 'x = dependency(' + ', '.join(args) + ')'
@@ -121,6 +123,8 @@ class Project:
         self.linemap: T.Dict[T.Tuple[str, int], T.Tuple[int, int]] = {}   # (file rel to src, line) -> (k, step)
         self.filemap: T.Dict[str, int] = {}                                # file rel to src -> k
         self.fff: T.List[str] = []
+        # global default_library of the project (cells of the static / default_library axis share it)
+        self.dl: T.Optional[str] = next((c['cfg']['dl'] for c in cells if c['cfg'].get('dl')), None)
 
     def materialise(self) -> None:
         rd = self.rd
@@ -146,7 +150,9 @@ class Project:
             if cfg['prov'] != 'none':
                 sd = sp / sub
                 sd.mkdir(exist_ok=True)
-                sl = [f"project({_q(sub)}, version: '0.1')", f"message('C10SUB {k} begin')"]
+                sdl = cfg.get('sdl', 'none')
+                dopt = f", default_options: ['default_library={sdl}']" if sdl != 'none' else ''
+                sl = [f"project({_q(sub)}, version: '0.1'{dopt})", f"message('C10SUB {k} begin')"]
                 if cfg['style'] == 'broken':
                     sl.append("error('C10 deliberately broken subproject')")
                 sl.append(f"d{k}_dep = declare_dependency(version: {_q(rd.version(cfg['subv']))}, variables: {{'origin': 'sub'}})")
@@ -193,6 +199,8 @@ class Project:
             cmd = [common.PYTHON, str(common.REPO / 'meson.py'), 'setup', '--backend=none', f'--wrap-mode={self.wm}']
             if self.fff:
                 cmd.append('--force-fallback-for=' + ','.join(self.fff))
+            if self.dl:
+                cmd.append(f'-Ddefault_library={self.dl}')
             cmd += ['src', 'build']
         try:
             p = subprocess.run(cmd, cwd=self.root, env=env, stdout=subprocess.PIPE, stderr=subprocess.STDOUT,
@@ -411,7 +419,10 @@ def worker2(args: T.Tuple[str, str, str, T.List[Cell], int]) -> T.Tuple[T.Dict[s
 
 def cell_key(cfg: T.Dict[str, T.Any], as_: T.List[T.Dict[str, T.Any]]) -> str:
     c = f"sys{cfg['sys']}/{cfg['prov']}-{cfg['style']}/{cfg['wm']}/fff={'+'.join(sorted(cfg['fff'])) or '-'}/pre={cfg['pre']}"
-    steps = ';'.join(f"{a['con']},{a['fb']},{'req' if a['req'] else 'opt'},af={a['af']}" for a in as_)
+    if cfg.get('dl'):
+        c += f"/default_library={cfg['dl']},sub:{cfg.get('sdl', 'none')}"
+    steps = ';'.join(f"{a['con']},{a['fb']},{'req' if a['req'] else 'opt'},af={a['af']}"
+                     + (f",static={a['static']}" if a.get('static', 'unset') != 'unset' else '') for a in as_)
     return c + '|' + steps
 
 
